@@ -148,7 +148,7 @@ func (e *env) undelegateCoins(u, v int, cs sdk.Coins) bool {
 	if found {
 		id := e.c.App.MultiStakingKeeper.GetLastUndelegationId(e.ctx()) + 1
 		for _, c := range cs {
-			model = append(model, fmt.Sprintf("MsUndelegate %d %d %d %s %d", 100+u, p.Id, e.denID(c.Denom), hx.ZInt(c.Amount), id))
+			model = append(model, fmt.Sprintf("MsUndelegateT %d %d %d %s %d", 100+u, p.Id, e.denID(c.Denom), hx.ZInt(c.Amount), id))
 		}
 	}
 	return e.tx("undelegate", u, []sdk.Msg{mstypes.NewMsgUndelegate(e.addr(u), e.valStr(v), cs)}, model,
